@@ -320,8 +320,9 @@ class AlgOb(Ob):
           algebraic domain and decided by the analysis function `module:function` (which uses z3/cvc5).
     The analysis runs in its own python process (big recursion stack, no GIL contention)."""
 
-    def __init__(self, name, harness, entry, analysis, params=None, bit_flags=("--slice-formula",), export_flags=(), skip_bit=False, **kw):
+    def __init__(self, name, harness, entry, analysis, params=None, bit_flags=("--slice-formula",), export_flags=(), skip_bit=False, dialect="--smt2", **kw):
         Ob.__init__(self, name, harness, entry, **kw)
+        self.dialect = dialect  # "--z3": same VC in z3's dialect (needed when structs containing arrays are flattened: generic SMT2 export aborts)
         self.skip_bit = skip_bit  # large instances: memory/unwinding facts come from the smaller instances of the same family
         self.analysis = analysis
         self.params = dict(params or {})
@@ -476,7 +477,7 @@ def run_alg(ctx, ob, idx, binary, r, t0):
     timeout = ob.timeout or (300 if ctx.quick else 3000)
     cmd = ["cbmc", binary, "--function", ob.entry, "--unwind", str(ob.unwind), "--no-standard-checks", "--no-malloc-may-fail",
            "--drop-unused-functions", "--max-field-sensitivity-array-size", "16384", "--object-bits", "12",
-           "--smt2", "--fpa", "--outfile", smt] + ob.export_flags
+           ob.dialect, "--fpa", "--outfile", smt] + ob.export_flags
     if ob.unwindset:
         cmd += ["--unwindset", ob.unwindset]
     rc, o, e, w, to = run(cmd, timeout=timeout, mem_gb=ob.mem_gb)
